@@ -1,4 +1,5 @@
 import MakoModel.Path.Below
+import MakoModel.Path.Idem
 /-!
 # C09 – template lookup never escapes its configured directories
 
@@ -59,6 +60,18 @@ leading slashes and backslashes the URI is spelled with. -/
 theorem lookup_contained (d0 uri : List Char) (h : templateCheck uri = true) :
     Below (normpath d0) (uriToSrc (normpath d0) uri) :=
   below_of_clean d0 (relPart uri) (relPart_head uri) (check_gives_names uri h)
+
+/-- **dirs_normalised.** What `TemplateLookup.__init__` stores for a configured directory is a fixed point of
+`normpath`, whatever spelling (trailing slashes, dot segments, repeated slashes) it was given with. -/
+theorem dirs_normalised (d0 : List Char) : normpath (normpath d0) = normpath d0 := normpath_idem d0
+
+/-- `lookup_contained` for any directory that is its own normal form. -/
+theorem lookup_contained_normalised (d uri : List Char) (hd : normpath d = d)
+    (h : templateCheck uri = true) : Below d (uriToSrc d uri) := by
+  have := lookup_contained d uri h
+  rwa [hd] at this
+
+example : normpath "/srv//t/./x/../".toList = "/srv/t".toList := by decide
 
 /-- **include_contained.** The same for a URI produced by `adjust_uri` from any calling template URI
 (`<%include>`, `<%inherit>`, `<%namespace>`, `get_namespace/get_template/include_file`), at any depth:
